@@ -81,6 +81,27 @@
   document using what is particular to that flavour (a custom scalar registered without validator,
   directives the dynamic API cannot register).
 
+  THE `is_subscription` FLAG.  `visit_selection` recognises a subscription root only by the flag
+  `MetaType::Object { is_subscription }` of the current type — set by the `#[Subscription]` macro, by
+  `#[derive(MergedSubscription)]` (derive/src/merged_subscription.rs) and by `dynamic::Subscription`, never
+  compared with `registry.subscription_type`.  The model goes by the DUMPED flags (`VSchema.subFlag`), the
+  reference validator by the operation type.  `SchemaWF` now demands `flagWF` (the flagged types are exactly
+  the type `subscription_type` names): `c09_flag_is_root` (then the walker's test is the test by name),
+  `c09_typename_at_subscription_root` (the PINNED walker — `typenameNotVisited` on, any other toggles —
+  rejects every request with `__typename` at a subscription root: direct, aliased, beside a real field, through
+  inline fragments without condition / on the root type, in a fragment on the root type; and the reference
+  validator calls such an operation invalid, 5.2.3.1).  `c09_corrected_wf` itself does not consult the flag
+  (the repaired walker visits `__typename` like a field and 5.2.3.1 is the reference rule), it carries the
+  hypothesis through `SchemaWF` only.  `c09_static_schemas_wf`: the THREE dumped variants of the static
+  harness schema (Model/ValidateStaticSchemas.lean: plain, with `ifdef`, with MergedObject /
+  MergedSubscription roots; the judge compares every case's dump with them) satisfy all registry hypotheses,
+  `flagWF` included, by evaluation; `c09_static_corrected` instantiates the equivalence there.
+  `c09_witness_subscription_flag_off`: the merged registry with the flag taken off (what a
+  `MergedSubscription` derive writing `is_subscription: false` registers) fails `flagWF`, the pinned model
+  ACCEPTS `subscription { __typename }` and four more shapes there, the reference validator calls them
+  invalid, and with the flag restored the model rejects — no listed finding is about flags, the judge reports
+  such a case as a violation.
+
   The statements that were OPEN are FALSE of the model as stated and are refuted by witnesses
   (`c09_refuted`, `c09_rule_equivalences_refuted`, `c09_corrected_refuted`);
   `c09_rule_equivalences_served` is the corrected, proved form of the second, `c09_corrected_wf` of the
@@ -166,12 +187,20 @@
   OBLIGATION c09_dynamic_schema_wf
   OBLIGATION c09_dynamic_corrected
   OBLIGATION c09_dynamic_example
+  OBLIGATION c09_flag_is_root
+  OBLIGATION c09_typename_at_subscription_root
+  OBLIGATION c09_static_schemas_wf
+  OBLIGATION c09_static_corrected
+  OBLIGATION c09_typename_at_root_example
+  OBLIGATION c09_witness_subscription_flag_off
 -/
 import AGV.Model.Validate
 import AGV.Spec.Validate
 import AGV.Gen.Rules
 import AGV.Lemmas.ValidateLiterals
 import AGV.Model.ValidateDynSchema
+import AGV.Model.ValidateStaticSchemas
+import AGV.Lemmas.ValidateSubRoot
 
 namespace AGV.Props.C09
 open AGV.Core AGV.Model.Validate
@@ -308,7 +337,8 @@ def S0 : VSchema :=
         query := "Query", mutation := none, subscription := some "Sub" },
     dirs := [{ name := "skip", repeatable := false, locs := ["FIELD", "FRAGMENT_SPREAD", "INLINE_FRAGMENT"],
                args := [{ name := "if", ty := .nonNull (.named "Boolean"), default := none }] }],
-    inputs := [{ name := "One", oneof := true, fields := [{ name := "a", ty := .named "Int", default := none }] }] }
+    inputs := [{ name := "One", oneof := true, fields := [{ name := "a", ty := .named "Int", default := none }] }],
+    subFlag := ["Sub"] }
 
 def p0 : Core.Pos := { line := 0, col := 0 }
 def fld (n : String) (args : List (String × DValue) := []) (sels : List Sel := []) (al : Option String := none) (ds : List Dir := []) : Sel :=
@@ -707,6 +737,7 @@ theorem c09_witness_schema_wellformed : SchemaWF S0 where
   noTypenameField := by decide
   fieldsOutput := by decide
   rootsComposite := by intro t r h; cases t <;> simp [rootOf, S0] at h <;> subst h <;> decide
+  flags := by decide
 
 open AGV.Lemmas.ValidateRules in
 /-- the hypotheses of the type-dependent theorems hold of the non-trivial valid example and of the
@@ -1501,7 +1532,8 @@ theorem c09_dynamic_schema_wf : SchemaWF dynSchema ∧ AbstractInhabited dynSche
   ⟨{ stringNotComposite := by decide
      noTypenameField := by decide
      fieldsOutput := by decide
-     rootsComposite := by intro t r h; cases t <;> simp [rootOf, dynSchema] at h <;> subst h <;> decide },
+     rootsComposite := by intro t r h; cases t <;> simp [rootOf, dynSchema] at h <;> subst h <;> decide
+     flags := by decide },
    by unfold AbstractInhabited; decide,
    litSchema_of_check dynSchema (by decide)⟩
 
@@ -1553,4 +1585,116 @@ theorem c09_dynamic_example :
   · exact ⟨by decide, by decide +kernel, by decide⟩
 
 end dynamic
+
+-- ------------------------------------------------------------------ the `is_subscription` flag; the static variants
+
+section subroot
+open AGV.Lemmas.ValidateRules AGV.Lemmas.ValidateWalk AGV.Lemmas.ValidateGraph AGV.Lemmas.ValidateSpecNodes
+open AGV.Lemmas.ValidateLiterals AGV.Lemmas.ValidateOverlap AGV.Lemmas.ValidateSubRoot
+open AGV.Spec.Validate
+open AGV.Model.ValidateStaticSchemas
+
+/-- in a well-formed registry the walker's test (the `is_subscription` flag of the current type) is the
+    test the specification means (the current type is the one `subscription_type` names) -/
+theorem c09_flag_is_root (S : VSchema) (hW : SchemaWF S) (t : Option String) :
+    isSubscriptionRoot S t = isSubscriptionRootByName S t :=
+  isSubscriptionRoot_of_flagWF S hW.flags t
+
+/-- THE PINNED WALKER ENFORCES THE INTROSPECTION HALF OF 5.2.3.1.  Well-formed registry with a
+    subscription root `r`; `visit_selection` as pinned (`__typename` is not visited; instead the walker
+    reports it when the current type is flagged `is_subscription`), every other toggle arbitrary.  A
+    request whose document has `__typename` at a subscription root — in a subscription operation or in
+    a fragment on `r`; as a field with or without alias, beside other selections, inside inline
+    fragments without type condition or on `r` (`TypenameAtRoot`) — is rejected, whatever the variables
+    and the operation name; and the reference validator calls every such OPERATION invalid. -/
+theorem c09_typename_at_subscription_root (S : VSchema) (hW : SchemaWF S) (D : Defects) (hD : D.typenameNotVisited = true)
+    (r : String) (hr : S.base.subscription = some r) (d : Doc) (vars : List (String × GValue)) (o : Option String) :
+    (TypenameAtRoot d r → (checkRules S D d vars o).isRejected = true)
+    ∧ ((∃ op ∈ d.ops, op.ty = .subscription ∧ typenameAtL r op.sels = true) → ¬ Valid {} S d vars o) := by
+  have hex : S.exists? r = true := by
+    have := hW.rootsComposite .subscription r (by simp [rootOf, hr])
+    unfold VSchema.isComposite VSchema.kindOf at this
+    unfold VSchema.exists?
+    cases h' : S.ty? r <;> simp_all
+  have hfl : S.subFlag.contains r = true := by
+    have := hW.flags
+    unfold flagWF at this
+    simp only [Bool.and_eq_true, hr] at this
+    exact this.2
+  exact ⟨typename_at_root_rejected S D hD r hr hex hfl d vars o, typename_at_root_invalid {} S d vars o r⟩
+
+/-- THE STATIC HARNESS REGISTRIES SATISFY THE HYPOTHESES.  The three dumped variants of the static
+    harness schema (Model/ValidateStaticSchemas.lean, generated from the dumps of the real registries —
+    plain `#[Object]` / `#[Subscription]` roots; the same with a custom directive `ifdef`; the same field
+    set with `#[derive(MergedObject)]` / `#[derive(MergedSubscription)]` roots — and compared by the
+    judge with the dump every case of stream `main` carries) are well-formed registries — in particular
+    their `is_subscription` flags mark exactly the subscription root — with inhabited abstract types,
+    the five built-in scalars and both input objects defined. -/
+theorem c09_static_schemas_wf : ∀ S ∈ staticVariants, SchemaWF S ∧ AbstractInhabited S ∧ LitSchema S := by
+  intro S hS
+  simp only [staticVariants, List.mem_cons, List.not_mem_nil, or_false] at hS
+  rcases hS with rfl | rfl | rfl
+  · exact ⟨{ stringNotComposite := by decide
+             noTypenameField := by decide
+             fieldsOutput := by decide
+             rootsComposite := by intro t r h; cases t <;> simp [rootOf, plainSchema] at h <;> subst h <;> decide
+             flags := by decide },
+           by unfold AbstractInhabited; decide, litSchema_of_check plainSchema (by decide)⟩
+  · exact ⟨{ stringNotComposite := by decide
+             noTypenameField := by decide
+             fieldsOutput := by decide
+             rootsComposite := by intro t r h; cases t <;> simp [rootOf, ifdefSchema] at h <;> subst h <;> decide
+             flags := by decide },
+           by unfold AbstractInhabited; decide, litSchema_of_check ifdefSchema (by decide)⟩
+  · exact ⟨{ stringNotComposite := by decide
+             noTypenameField := by decide
+             fieldsOutput := by decide
+             rootsComposite := by intro t r h; cases t <;> simp [rootOf, mergedSchema] at h <;> subst h <;> decide
+             flags := by decide },
+           by unfold AbstractInhabited; decide, litSchema_of_check mergedSchema (by decide)⟩
+
+/-- the corrected statement INSTANTIATED at the three static registries: document hypotheses only -/
+theorem c09_static_corrected (S : VSchema) (hS : S ∈ staticVariants) (d : Doc) (vars : List (String × GValue)) (o : Option String)
+    (hD : docOK d = true) (hAk : ArgKeysOk S d) (hDk : DefaultKeysOk d) :
+    (checkRules S {} d vars o).isRejected = true ↔ ¬ Valid {} S d vars o :=
+  c09_corrected_wf S d vars o
+    (c09_wf_of_schema S d (c09_static_schemas_wf S hS).1 (c09_static_schemas_wf S hS).2.1 (c09_static_schemas_wf S hS).2.2 hD hAk hDk)
+
+def subOp (sels : List Sel) (frags : List FragDef := []) : Doc :=
+  { ops := [{ ty := .subscription, name := none, vars := [], dirs := [], sels := sels }], frags := frags }
+/-- `subscription { __typename }`, `subscription { names t: __typename }`, `subscription { ... { __typename } ticks }`,
+    `subscription { ... on MSubscription { __typename } }`, `subscription { ...F } fragment F on MSubscription { t: __typename }` -/
+def dSubTypenames : List Doc :=
+  [subOp [fld "__typename"],
+   subOp [fld "names", fld "__typename" [] [] (some "t")],
+   subOp [.inline none [] [fld "__typename"] p0, fld "ticks"],
+   subOp [.inline (some "MSubscription") [] [fld "__typename"] p0],
+   subOp [.spread "F" [] p0] [{ name := "F", cond := "MSubscription", dirs := [], sels := [fld "__typename" [] [] (some "t")] }]]
+
+/-- the hypothesis of `c09_typename_at_subscription_root` holds of the five shapes the generator
+    writes, at the merged registry; the pinned model rejects each, the reference validator calls each
+    invalid (by evaluation, independently of the theorem) -/
+theorem c09_typename_at_root_example :
+    (∀ d ∈ dSubTypenames, TypenameAtRoot d "MSubscription")
+    ∧ dSubTypenames.all (fun d => (checkRules mergedSchema Defects.pinned d [] none).isRejected) = true
+    ∧ dSubTypenames.all (fun d => (violations {} mergedSchema d [] none).contains "5.2.3.1 Single Root Field") = true := by
+  refine ⟨by decide, by decide +kernel, by decide +kernel⟩
+
+/-- the merged registry as a `MergedSubscription` derive that writes `is_subscription: false` registers it -/
+def mergedFlagOff : VSchema := { mergedSchema with subFlag := [] }
+
+/-- A REGISTRY WITH THE FLAG OFF.  It is not well-formed (`flagWF` fails, nothing else changes); the
+    pinned model ACCEPTS all five `__typename`-at-the-subscription-root requests there — the real code,
+    going by the flag, starts executing them — while the reference validator (which looks at the
+    operation type) calls each invalid; with the flag on the subscription root the same model rejects
+    them.  No listed finding is about flags: the judge reports such a case as a violation. -/
+theorem c09_witness_subscription_flag_off :
+    flagWF mergedFlagOff = false
+    ∧ withRootFlag mergedFlagOff = mergedSchema
+    ∧ dSubTypenames.all (fun d => !(checkRules mergedFlagOff Defects.pinned d [] none).isRejected) = true
+    ∧ dSubTypenames.all (fun d => (violations {} mergedFlagOff d [] none).contains "5.2.3.1 Single Root Field") = true
+    ∧ dSubTypenames.all (fun d => (checkRules (withRootFlag mergedFlagOff) Defects.pinned d [] none).isRejected) = true := by
+  refine ⟨by decide, rfl, by decide +kernel, by decide +kernel, by decide +kernel⟩
+
+end subroot
 end AGV.Props.C09
